@@ -11,10 +11,10 @@ export VERIF_EVIDENCE_DIR=$(mktemp -d /tmp/verif_seed_evidence.XXXXXX)  # never 
 trap 'rm -rf "$VERIF_EVIDENCE_DIR"' EXIT
 cd $WT || exit 2
 git checkout -q -- magpylib tests 2>/dev/null
-PYTHONPATH=$WT /venv/bin/python demo_$I.py >/tmp/seed_clean.out 2>&1; C=$?
+PYTHONPATH=$WT timeout 600 /venv/bin/python demo_$I.py >/tmp/seed_clean.out 2>&1; C=$?
 git apply seed_$I.diff || { echo "patch does not apply in worktree"; exit 2; }
-PYTHONPATH=$WT /venv/bin/python demo_$I.py >/tmp/seed_mut.out 2>&1; M=$?
-T=$(/venv/bin/python -m pytest -q -p no:cacheprovider --timeout=900 -n 14 tests --deselect tests/test_obj_BaseGeo.py::test_scipy_from_methods --ignore tests/test_display_pyvista.py 2>&1 | tail -1)
+PYTHONPATH=$WT timeout 600 /venv/bin/python demo_$I.py >/tmp/seed_mut.out 2>&1; M=$?
+T=$(timeout 1500 /venv/bin/python -m pytest -q -p no:cacheprovider --timeout=900 -n 14 tests --deselect tests/test_obj_BaseGeo.py::test_scipy_from_methods --ignore tests/test_display_pyvista.py 2>&1 | tail -1)
 git checkout -q -- magpylib
 echo "demo clean exit=$C  with change exit=$M  tests: $T"
 mkdir -p $D; cp seed_$I.diff $D/patch.diff; cp demo_$I.py $D/demo.py
@@ -22,7 +22,7 @@ cd /repo; git apply --check $D/patch.diff || { echo "patch does not apply to /re
 git apply $D/patch.diff
 RES=""
 for P in $PID $OTHERS; do
-  OUT=$(cd /verif && ./vv check $P 2>&1); RC=$?
+  OUT=$(cd /verif && timeout 1800 ./vv check $P 2>&1); RC=$?
   V=$(echo "$OUT" | grep -c "^VIOLATION property=$P")
   FIRST=$(echo "$OUT" | grep "failed obligation" | head -2 | tr '\n' ';')
   NF=$(echo "$OUT" | grep "^VIOLATION" | head -1 | grep -c "no-failing-input-found")
